@@ -408,3 +408,56 @@ Definition model_default (d : dinput) : option string :=
       end
   | None => None
   end.
+
+(** ** Unions (C20): the value is its object representation [VBytes l]; `size_of::<Self>()` of the
+    interpretation is the length of that list (the K2 harness reads it from rustc's `size_of::<T>()` and
+    builds the same bytes on both sides).  [run_eq] / [run_hash] / [P_C06.run_fmt] / [P_C20b.run_clone] are the
+    runners the theorems of Properties/C20.v are stated about; the texts go through Sem/Fmt.v
+    ([run_events], a byte slice rendered by [bytes_text], i.e. [P_C20d.render_bytes]). *)
+From Educe.Proofs Require P_C20d.
+
+Definition IU (size : nat) : interp :=
+  {| i_ne := i_ne I0; i_eq := i_eq I0; i_cmp := i_cmp I0; i_partial_cmp := i_partial_cmp I0;
+     i_user := user0; i_size_of_self := size;
+     i_clone := fun v => v; i_clone_from := fun _ v => v; i_into := fun v => v; i_default := fun _ => VUnit |}.
+
+Definition model_union_eq (d : dinput) (l1 l2 : list nat) : option bool :=
+  match item_with "eq" (expanded d) with
+  | Some it => run_eq (IU (List.length l1)) it (VBytes l1) (VBytes l2)
+  | None => None
+  end.
+
+(** `<[u8] as Hash>::hash`: the length prefix (`write_length_prefix` = `write_usize`), then one `write` of
+    the bytes; support.rs's recording hasher prints `write` with the slice's `{:?}` text *)
+Definition union_event_strings (e : event) : list string :=
+  match e with
+  | EvHash (VBytes l) => ["usize:" ^^ dec (List.length l); "write" ^^ bytes_text false l]
+  | _ => event_strings e
+  end.
+Definition model_union_hash (d : dinput) (l : list nat) : option (list string) :=
+  match item_with "hash" (expanded d) with
+  | Some it => option_map (flat_map union_event_strings) (run_hash (IU (List.length l)) it (VBytes l) VUnit)
+  | None => None
+  end.
+
+Definition model_union_debug (alt : bool) (d : dinput) (l : list nat) : option string :=
+  match item_with "fmt" (expanded d) with
+  | Some it =>
+      match run_fmt (IU (List.length l)) it (VBytes l) with
+      | Some evs => run_events alt (P_C20d.render_bytes alt) None evs
+      | None => None
+      end
+  | None => None
+  end.
+
+(** the clone's bytes; no result if anything was called on the way (the real side logs no call either:
+    a union's field types are plain Copy types) *)
+Definition model_union_clone (d : dinput) (l : list nat) : option (list nat) :=
+  match item_with "clone" (expanded d) with
+  | Some it =>
+      match P_C20b.run_clone (IU (List.length l)) it (VBytes l) with
+      | Some (VBytes l', []) => Some l'
+      | _ => None
+      end
+  | None => None
+  end.
